@@ -1,0 +1,25 @@
+//go:build verif
+
+package sse
+
+import "runtime/debug"
+
+// VerifHook is called at named points of Joe's operations when built with the verif tag.
+var VerifHook func(key any, point string)
+
+// VerifPanic receives panics of Joe's goroutine when built with the verif tag.
+var VerifPanic func(j *Joe, v any, stack []byte)
+
+func verifYield(key any, point string) {
+	if h := VerifHook; h != nil {
+		h(key, point)
+	}
+}
+
+func verifRecover(j *Joe) {
+	if h := VerifPanic; h != nil {
+		if r := recover(); r != nil {
+			h(j, r, debug.Stack())
+		}
+	}
+}
